@@ -37,6 +37,10 @@ claimed = {
    text="Deductive proof over the whole decode call graph (Point, Cap, Rect, CellID, Cell, CellUnion, Polyline, Loop, Polygon in both formats, compressed point decoding, face runs, derivative coder) against an adversarial input stream (every read returns an unconstrained value and error status = all byte strings of all lengths): no index/slice/nil/make-size/division panic, every make() is within the documented limits (vertices 50M, loops 10M, cells 1M) on the value actually passed, decode loops terminate (counting loops or decreases clauses), and Decode returns a non-nil error whenever a read failed or a validity check raised an error (ghost event flags). Usability of the decoded value by float geometry (initBound, index build) is outside and listed as assumed.",
    note=TRUST+"Assumed contracts (listed in evidence): NewShapeIndex, ShapeIndex.Add, ExpandForSubregions, Loop.initBound, Polygon.initLoopProperties, Polygon.initEdgesAndIndex, facePiQitoXYZ, CellFromCellID; stdlib I/O models (binary.Read, ReadUvarint, io.ReadFull, ReadByte).",
    design="3 C15"),
+ 'C05': dict(
+   text="Deductive proof of the level-limit and discard slice: newCoverer clamps MinLevel/MaxLevel into [0,30] and LevelMod into [1,3]; adjustLevel returns a level <= its input that is MinLevel plus a multiple of LevelMod; CellUnion.Denormalize outputs only valid cells whose level is >= MinLevel and differs from it by a multiple of LevelMod (or is 30), with both loops' termination proved; Covering and InteriorCovering end with exactly that Denormalize call, so every returned cell respects MinLevel and LevelMod for every region and configuration; newCandidate discards a cell only if the region reports non-intersection (or the interior rule applies) and marks it terminal only above MinLevel. MaxLevel through the candidate heap, MaxCells, 'the covering covers the region' and the region predicates themselves (float) are NOT decided.",
+   note=TRUST+"Assumed contracts: RegionCoverer.CellUnion / InteriorCellUnion return valid cells (search over float predicates); Region interface methods are deterministic. Unverified remainder: coverage of the region, MaxLevel/MaxCells honoured by the candidate heap, normalizeCovering.",
+   design="3 C05"),
  'C06': dict(
    text="Deductive proof of the Shape-interface slice for *LaxLoop, *LaxPolyline, *LaxPolygon, *PointVector, *Polyline, *Loop: for every well-formed shape value (all vertex arrays, all lengths) chains partition the edge ids, ChainEdge(i,j) is bit-identical to Edge(Chain(i).Start+j), ChainPosition inverts Chain, and none of these calls can index out of range (search loops by invariant and decreases). That index answers equal brute force over float clipping is NOT decided.",
    note=TRUST+"Unverified remainder: ShapeIndex contents vs brute force (edge clipping, containsCenter: floating point); Polygon shape methods.",
